@@ -31,7 +31,11 @@ class Detection:
         if hp is None or self.graph_fn is None:
             self.errors.append("cannot identify the cycle test (fn(&HashMap<u64, Identity>, ..) -> bool) / the wait-for graph accessor")
             return
-        cands = [b for b in f.fn_bodies() if any(callee(k.term) == hp for k in live_calls(b)) and b.defn != hp]
+        def calls_hp(k):
+            # also when the cycle test is a method of a private extension trait on the map (statically resolved call)
+            return callee(k.term) == hp or ((k.term.get("fn") or {}).get("resolved") or {}).get("def") == hp
+        self.calls_hp = calls_hp
+        cands = [b for b in f.fn_bodies() if any(calls_hp(k) for k in live_calls(b)) and b.defn != hp]
         if len(cands) != 1:
             self.errors.append("expected exactly one caller of the cycle test %s, found %d" % (hp, len(cands)))
             return
@@ -47,7 +51,7 @@ class Detection:
             alias = len(ds) == 1 and ds[0][0] == "assign" and "use" in ds[0][3] and (ds[0][3]["use"].get("move") or {}).get("l") in allg
             if not alias:
                 self.guards.append(g)
-        self.has_path = [k.idx for k in live_calls(b) if callee(k.term) == hp]
+        self.has_path = [k.idx for k in live_calls(b) if calls_hp(k)]
         self.inserts = [k.idx for k in live_calls(b) if is_map_method(f, k, "insert")]
         self.locks = [k.idx for k in live_calls(b) if fn_of(k).get("name") == "lock" and "Mutex" in (fn_of(k).get("def") or "")]
         self.panics = [k.idx for k in live_calls(b) if is_panic_call(k.term)]
